@@ -126,6 +126,26 @@ Theorem C05_kf4_refuted :
 Proof. exact kf4_refuted. Qed.
 Print Assumptions C05_kf4_refuted.
 
+(** Selection.Set with an already typed value: never crashes, leaves the store alone unless
+    accepted, and for every numeric, decimal and string type decides exactly as the converting
+    paths do (so soundness and completeness above carry over); for enumeration / bits it checks
+    nothing (finding 6). *)
+Theorem C05_typed_set_same : forall rx b il chain v,
+  membership_base b = false -> accept_typed rx b il chain v = accept rx b il chain v.
+Proof. exact typed_same. Qed.
+Theorem C05_typed_set_no_panic : forall rx b il chain v, accept_typed rx b il chain v <> Panicked.
+Proof. exact typed_no_panic. Qed.
+Theorem C05_typed_set_frame : forall rx b il chain st v,
+  fst (set_typed_model rx b il chain st v) <> Accepted -> snd (set_typed_model rx b il chain st v) = st.
+Proof. exact typed_frame. Qed.
+Print Assumptions C05_typed_set_frame.
+Theorem C05_kf6_refuted :
+  accept_typed rx_w (BEnum [([x61], 0)]) false [mkT None None []] (VOne (SEnumName [x7a; x7a])) = Accepted /\
+  accept rx_w (BEnum [([x61], 0)]) false [mkT None None []] (VOne (SEnumName [x7a; x7a])) = Rejected /\
+  known_region_b (BEnum [([x61], 0)]) [mkP None None []] = Some 6%nat /\
+  ~ in_effective_type rx_w (BEnum [([x61], 0)]) false [mkS None None []] (VOne (SEnumName [x7a; x7a])).
+Proof. exact kf6_refuted. Qed.
+
 (** The code before the repairs: panic on the keywords and on bounds outside the Go type; levels
     of a typedef chain OR-ed (typedef 0..100 narrowed to 1..10 accepted 50). *)
 Theorem C05_pinned_panics :
